@@ -8,6 +8,17 @@ Proof      : coq/Props/C19.v over coq/Model/FLock.v (FileLock in flock mode over
              time arithmetic involved).  Unbounded: any number of clients, any interleaving at primitive
              granularity, any zone / rendering history.  C19_s3_environment_irrelevant: erasing the
              environment events of ANY run changes nothing observable (simulation proof).
+             Local lock ACROSS PROCESSES: coq/Model/ProcLock.v (FileLock handles placed in OS processes by an arbitrary
+             topology, open file descriptions, descriptor inheritance by fork(), process deaths; the handle program and
+             the ownership discipline are regenerated from FileLock by translator/gen_filelock.py -> Gen/GenFileLock.v).
+             Proofs/ProcLockC19Proofs.v: for every topology and every event list whose forks copy idle handles: at most one
+             holder and the flag is the kernel's owner (C19_proc_mutex_any_topology), a holder's death frees the lock and
+             any idle handle of another process is then granted (C19_proc_death_frees), success only from a free lock
+             (C19_proc_granted_only_when_free), a blocked acquirer is never granted while the holder neither unlocks nor
+             dies, whatever else happens (C19_proc_blocked_never_succeeds), an idle handle has no descriptor so a fork
+             inherits nothing (C19_proc_idle_handle_has_no_descriptor); C19_proc_kept_descriptor_refuted: the witnesses
+             for a handle that keeps its descriptor across acquisitions (two holders after a fork; a dead holder's lock
+             survives).
 Tie        : translator/gen_lockage.py regenerates the lease-age kernel of _try_takeover_expired (the
              expression compared with the lease and the guard) into Gen/GenLockAge.v, which Lock.v's age
              step is stated over; translator/gen_lockconst.py (constants + golden pins of the modelled
@@ -29,6 +40,20 @@ Oracles    : implementation-only, on every state of every schedule: critical sec
              library's clocks).  Real heartbeat thread against the wall clock in a seed-drawn non-UTC zone.
              thorough: 8 processes x 2000 cycles on an unprotected counter, kill -9 of holders, real
              timeout measurement.
+Processes  : harness/lib/lockprocs.py: schedules over REAL OS processes -- spawn (separate process), new (a handle built by
+(search)     LocalStorageBackend.create_lock), acq, rel, fork (the child inherits handle objects and descriptors), kill -9,
+             _exit -- one whole library call per event.  Topologies (proc_topologies): separate processes, two handles in one
+             process, a worker forked before the parent's handle was ever used / after completed cycles / after a refused
+             attempt / while held, pre-forked pools, grandchildren, own handles; for each, every ordered pair (X, Y) of
+             contending handles: X holds, Y must time out, X releases / is killed / exits, Y must succeed, a third must time
+             out, ...; plus random event lists over the whole alphabet.  Oracles on every state (implementation only):
+             acquire() True only when no other acquisition is live, at most one acquisition reports is_held(), is_held()
+             only with a live acquisition and only while an outsider's flock is refused by the real kernel, the kernel lock
+             free once every holder released or died, TimeoutError only while a holder is live and within
+             timeout .. timeout + poll + allowance.  A fork WHILE HELD duplicates the holder (fork(2)): the copies count as
+             one acquisition, over when one of them releases or all are dead; stale copied flags are not judged.
+             Correspondence proc-lock-layer: every primitive on the lock file (real kernel's answers), every fork and
+             death of every run must be accepted by ProcLock.lrun_strict and end in the same holder / descriptor counts.
 Not judged : a NAIVE LastModified (no zone in the reply's date; boto3 never yields one for S3) makes
              acquire() raise TypeError from the aware-minus-naive subtraction: modelled (SRaised), compared,
              counted (s3_outcomes.raised) -- it fails closed, never a success, and the property text does
@@ -55,6 +80,8 @@ THEOREMS = [
     "C19_s3_local_field_age_is_zone_shifted", "C19_s3_local_field_age_premature", "C19_s3_superseded", "C19_s3_is_held_sound", "C19_s3_timeout",
     "C19_s3_ok_only_when_unowned", "C19_s3_mutex_partial", "C19_s3_mutex_refuted",
     "C19_s3_mutex_gap_hypothesis_insufficient", "C19_s3_mutex_conditional_delete",
+    "C19_proc_mutex_any_topology", "C19_proc_death_frees", "C19_proc_granted_only_when_free", "C19_proc_blocked_never_succeeds",
+    "C19_proc_idle_handle_has_no_descriptor", "C19_proc_kept_descriptor_refuted",
 ]
 REQ = ["DS.Model.FLock", "DS.Model.Lock", "DS.Gen.GenLockConst"]
 KNOWN_KEY = "s3-release-get-then-unconditional-delete-after-takeover"
@@ -62,14 +89,20 @@ KNOWN_KEY = "s3-release-get-then-unconditional-delete-after-takeover"
 MANIFEST_ENTRY = {
     "level_text": "Coq theorems over executable models of FileLock (flock mode) and of the S3 conditional-write lock, for "
                   "every interleaving of any number of clients at primitive granularity: local mutual exclusion, single "
-                  "inode, release on death, timeout bounds; S3 takeover only after lease, superseded holders observe the "
+                  "inode, release on death, timeout bounds; the local lock across PROCESSES under every process topology "
+                  "(Model/ProcLock.v: handles in OS processes, open file descriptions, fork inheritance, deaths; program and "
+                  "discipline regenerated from FileLock): one holder, death frees, success only from a free lock, a blocked "
+                  "acquirer never granted while the holder lives (C19_proc_*), tied to the code by schedules over real "
+                  "processes (separate, forked before use / after cycles / after a refusal / while held, pools, grandchildren) "
+                  "whose lock-file primitives must be accepted by the model; S3 takeover only after lease, superseded holders observe the "
                   "loss, is_held soundness, timeout bound -- for every history of the process time zone and of the "
                   "rendering of LastModified (environment events in the model; C19_s3_environment_irrelevant: erasing them "
                   "changes nothing observable), the lease-age kernel being regenerated from _try_takeover_expired over a "
                   "datetime model (Gen/GenLockAge.v, Model/PyTime.v); models tied to the code by schedule-for-schedule "
                   "differential execution of the real classes under a deterministic cooperative scheduler, the S3 runs "
                   "in processes east / west of UTC (TZ + tzset) with aware (tzutc, foreign offsets) and naive LastModified",
-    "level_note": "C19_s3_mutex is proved only as C19_s3_mutex_partial (hypothesis: no release's DELETE lands after the "
+    "level_note": "C19_proc_* assume forks_quiescent (a fork copies idle handles; a fork while held duplicates the holder = fork(2), "
+                  "exercised by the process schedules with the copies judged as one acquisition). C19_s3_mutex is proved only as C19_s3_mutex_partial (hypothesis: no release's DELETE lands after the "
                   "releaser's own lease lapsed; C19_s3_mutex_gap_hypothesis_insufficient shows the weaker GET-to-DELETE-gap "
                   "hypothesis does not suffice); the full statement is refuted by C19_s3_mutex_refuted = known finding "
                   + KNOWN_KEY + " and holds for the variant with a conditional DELETE (C19_s3_mutex_conditional_delete). "
@@ -91,7 +124,8 @@ MANIFEST_ENTRY = {
                   "swallowing are the library's code), including ticks whose renewal fails transiently while the loop keeps ticking "
                   "past the lease, with is_held() queried at every point of such histories.",
     "technique": "Coq invariant / simulation proofs over interleaving models + kernel regenerated by translator + "
-                 "deterministic-scheduler differential correspondence across process time zones",
+                 "deterministic-scheduler differential correspondence across process time zones + real process families (fork / kill) "
+                 "with trace validation against the process-topology lock model",
     "design_ref": "DESIGN.md section 5 C19",
 }
 
@@ -351,10 +385,32 @@ def report_problems(ctx, prefix: str, d: Driver, extra: Dict[str, Any]) -> int:
     return n
 
 
+_POOL: List[Any] = [None]
+
+
+def _pool(scratch: str):
+    """The pristine server process every separate process of a process-family schedule is forked from (lockprocs.py)."""
+    from harness.lib import lockprocs as LP
+    if _POOL[0] is None:
+        _POOL[0] = LP.Pool(scratch)
+    return _POOL[0]
+
+
+def _close_pool() -> None:
+    if _POOL[0] is not None:
+        try:
+            _POOL[0].close()
+        finally:
+            _POOL[0] = None
+
+
 def rerun(prefix: str, events: List[List[Any]], scratch: str, extra: Dict[str, Any]):
     from harness.lib.lockruns import run_flock, run_s3
     if prefix == "flock":
         return run_flock(events, scratch)
+    if prefix == "procs":
+        from harness.lib import lockprocs as LP
+        return LP.run_family(_pool(scratch), events, scratch)
     return run_s3(events, extra.get("lease_s", 60))
 
 
@@ -550,6 +606,187 @@ def check_flock(ctx) -> None:
         compare_flock(ctx, drivers, clients, "flock")
     except RuntimeError as e:
         ctx.proof_problems.append("FLock model evaluation failed: " + str(e)[:600])
+
+
+# ---------------------------------------------------------------------------------- local lock: process topologies
+REQ_P = ["DS.Gen.GenFileLock", "DS.Model.ProcLock"]
+
+
+def proc_topologies() -> List[Tuple[str, List[List[Any]], List[Tuple[str, int]]]]:
+    """(name, events that build the processes and handles, the handles that then contend).  HOW a process came into being
+    is the dimension: separate processes, several handles in one process, a worker forked before the parent's handle
+    was ever used / after it went through a completed acquire-release cycle / after a refused attempt / while it is
+    held, pre-forked pools, grandchildren."""
+    cyc = [["acq", "A", 0], ["rel", "A", 0]]
+    return [
+        ("separate-2", [["spawn", "A"], ["spawn", "B"], ["new", "A", 0], ["new", "B", 0]], [("A", 0), ("B", 0)]),
+        ("separate-3-used", [["spawn", "A"], ["spawn", "B"], ["spawn", "C"], ["new", "A", 0], ["new", "B", 0], ["new", "C", 0]] + cyc
+         + [["acq", "B", 0], ["rel", "B", 0]], [("A", 0), ("B", 0), ("C", 0)]),
+        ("two-handles-one-process", [["spawn", "A"], ["new", "A", 0], ["new", "A", 1], ["spawn", "B"], ["new", "B", 0]],
+         [("A", 0), ("A", 1), ("B", 0)]),
+        ("fork-before-first-use", [["spawn", "A"], ["new", "A", 0], ["fork", "A", "B"]], [("A", 0), ("B", 0)]),
+        ("fork-after-cycle", [["spawn", "A"], ["new", "A", 0]] + cyc + [["fork", "A", "B"]], [("A", 0), ("B", 0)]),
+        ("fork-after-cycle-plus-outsider", [["spawn", "A"], ["new", "A", 0]] + cyc + [["fork", "A", "B"], ["spawn", "C"], ["new", "C", 0]],
+         [("A", 0), ("B", 0), ("C", 0)]),
+        ("prefork-pool-after-cycles", [["spawn", "A"], ["new", "A", 0]] + cyc + cyc + [["fork", "A", "B"], ["fork", "A", "C"]],
+         [("B", 0), ("C", 0), ("A", 0)]),
+        ("fork-after-refused-attempt", [["spawn", "A"], ["spawn", "X"], ["new", "A", 0], ["new", "X", 0], ["acq", "X", 0], ["acq", "A", 0],
+                                        ["rel", "X", 0], ["fork", "A", "B"]], [("A", 0), ("B", 0), ("X", 0)]),
+        ("grandchild-after-cycles", [["spawn", "A"], ["new", "A", 0]] + cyc + [["fork", "A", "B"], ["acq", "B", 0], ["rel", "B", 0], ["fork", "B", "C"]],
+         [("A", 0), ("C", 0), ("B", 0)]),
+        ("fork-own-handles-after-cycles", [["spawn", "A"], ["new", "A", 0], ["new", "A", 1]] + cyc + [["acq", "A", 1], ["rel", "A", 1], ["fork", "A", "B"]],
+         [("A", 0), ("B", 1), ("B", 0)]),
+        ("fork-while-held", [["spawn", "A"], ["new", "A", 0], ["acq", "A", 0], ["fork", "A", "B"], ["spawn", "C"], ["new", "C", 0]],
+         [("A", 0), ("C", 0), ("B", 0)]),
+        ("fork-while-held-after-cycle", [["spawn", "A"], ["new", "A", 0]] + cyc + [["acq", "A", 0], ["fork", "A", "B"], ["spawn", "C"], ["new", "C", 0]],
+         [("C", 0), ("A", 0), ("B", 0)]),
+    ]
+
+
+def proc_scripts(members: List[Tuple[str, int]], quick: bool) -> List[List[List[Any]]]:
+    """The property, sentence by sentence, for every ordered pair (X, Y) of contending handles and every way X stops
+    holding: X acquires; Y's acquire must time out; X releases / is killed / exits without releasing; Y's acquire must now
+    succeed; a third handle must time out while Y holds; Y releases.  (An acquire through a handle that already reports
+    is_held() is skipped by the runner.)"""
+    out: List[List[List[Any]]] = []
+    for x in members:
+        for y in members:
+            if x == y:
+                continue
+            third = next((m for m in members if m != x and m != y and m[0] != x[0]), None)
+            for end in (["rel", x[0], x[1]], ["kill", x[0]], ["exit", x[0]]):
+                if end[0] == "exit" and quick and members.index(x) + members.index(y) != 1:
+                    continue
+                if end[0] != "rel" and x[0] == y[0]:
+                    continue                       # Y dies with X
+                evs = [["acq", x[0], x[1]], ["acq", y[0], y[1]], end, ["acq", y[0], y[1]]]
+                if third is not None:
+                    evs.append(["acq", third[0], third[1]])
+                evs.append(["rel", y[0], y[1]])
+                if third is not None:
+                    evs += [["acq", third[0], third[1]], ["rel", third[0], third[1]]]
+                out.append(evs)
+    return out
+
+
+def random_family(rng, max_len: int) -> List[List[Any]]:
+    """A random well-formed event list over the whole alphabet: processes spawned and forked at any moment (before use,
+    between cycles, while held, from forked workers), one or two handles per process, deaths at any moment."""
+    names = ["A", "B", "C", "D", "E", "F"]
+    alive: Dict[str, set] = {}
+    used = 0
+    evs: List[List[Any]] = [["spawn", "A"], ["new", "A", 0]]
+    alive["A"] = {0}
+    used = 1
+    while len(evs) < max_len:
+        r = rng.random()
+        ps = sorted(alive)
+        if not ps:
+            break
+        p = rng.choice(ps)
+        if r < 0.07 and used < len(names):
+            q = names[used]
+            used += 1
+            evs += [["spawn", q], ["new", q, 0]]
+            alive[q] = {0}
+        elif r < 0.22 and used < len(names):
+            q = names[used]
+            used += 1
+            evs.append(["fork", p, q])
+            alive[q] = set(alive[p])
+        elif r < 0.27 and len(alive[p]) < 2:
+            evs.append(["new", p, 1])
+            alive[p].add(1)
+        elif r < 0.33 and len(alive) > 1:
+            evs.append([rng.choice(["kill", "exit"]), p])
+            del alive[p]
+        elif r < 0.70:
+            evs.append(["acq", p, rng.choice(sorted(alive[p]))])
+        else:
+            evs.append(["rel", p, rng.choice(sorted(alive[p]))])
+    return evs
+
+
+def check_procs(ctx) -> None:
+    """Process topologies of the local lock: real processes (harness/lib/lockprocs.py), implementation-only oracles on
+    every state, and the lock-file primitives of every run (with the real kernel's answers, every fork, every death)
+    accepted by Model/ProcLock.v under the regenerated discipline."""
+    from harness.lib import lockprocs as LP
+    quick = ctx.tier == "quick"
+    rng = ctx.rng
+    t0 = time.time()
+    pool = _pool(ctx.scratch)
+    runs: List[Tuple[str, Any, List[List[Any]]]] = []
+    per_topology: Dict[str, int] = {}
+    try:
+        for name, prefix, members in proc_topologies():
+            scripts = proc_scripts(members, quick)
+            if quick and len(scripts) > 9:
+                keep = scripts[:4] + rng.sample(scripts[4:], 5)
+                scripts = keep
+            for sc in scripts:
+                evs = prefix + sc
+                runs.append((name, LP.run_family(pool, evs, ctx.scratch), evs))
+                per_topology[name] = per_topology.get(name, 0) + 1
+        for _ in range(40 if quick else 600):
+            evs = random_family(rng, rng.choice([8, 12, 16, 20]))
+            runs.append(("random", LP.run_family(pool, evs, ctx.scratch), evs))
+    except LP.HarnessFailure as e:
+        ctx.proof_problems.append("process-family harness failed: " + str(e)[:600])
+    agg = {"ok": 0, "timeout": 0, "forks": 0, "deaths": 0, "probes": 0, "processes": 0, "events": 0}
+    nbad = 0
+    for name, r, evs in runs:
+        for k in ("ok", "timeout", "forks", "deaths", "probes", "processes"):
+            agg[k] += r.stats[k]
+        agg["events"] += len(evs)
+        ctx.count(1, ("procs", json.dumps(evs)))
+        if r.problems:
+            seen = set()
+            r.problems = [pb for pb in r.problems if not (pb["oracle"] in seen or seen.add(pb["oracle"]))]
+
+            class _D:       # the shape report_problems expects
+                pass
+            d = _D()
+            d.run, d.events = r, evs      # type: ignore[attr-defined]
+            nbad += report_problems(ctx, "procs", d, {"topology": name})      # type: ignore[arg-type]
+    ctx.stats["proc_family_schedules"] = dict(per_topology, random=sum(1 for n, _r, _e in runs if n == "random"),
+                                              impl_wall_s=round(time.time() - t0, 1))
+    ctx.stats["proc_family_outcomes"] = agg
+    ctx.stats["proc_family_oracle_failures"] = nbad
+    if runs:
+        ctx.sample({"proc_family_schedule": runs[4 % len(runs)][2], "obs": [list(o) for o in runs[4 % len(runs)][1].obs]})
+    # ---- correspondence with Model/ProcLock.v
+    bad: List[Dict[str, Any]] = []
+    exprs: List[str] = []
+    kept: List[Tuple[str, Any, List[List[Any]], Dict[Any, int], int]] = []
+    for name, r, evs in runs:
+        try:
+            term, handles, opens = LP.project(r)
+        except LP.Nonconforming as e:
+            bad.append({"topology": name, "events": evs, "nonconforming": str(e)})
+            continue
+        exprs.append(term)
+        kept.append((name, r, evs, handles, opens))
+    try:
+        vals = coqbuild.coq_eval(REQ_P, exprs, chunk=_chunk(len(exprs))) if exprs else []
+    except RuntimeError as e:
+        ctx.proof_problems.append("ProcLock model evaluation failed: " + str(e)[:600])
+        vals = []
+        kept = []
+    for (name, r, evs, handles, opens), val in zip(kept, vals):
+        lok, (view, nxt, still_open) = val
+        if lok != 1:
+            bad.append({"topology": name, "events": evs, "rejected_lock_event_index": nxt,
+                        "primitives": [(e["actor"], e["prim"], e.get("handle"), e["ok"]) for e in r.locklog[:60]],
+                        "why": "the kernel's answer to this primitive (or its place in the handle's program) is not the lock layer's"})
+            continue
+        pid_of = {p: pr["pid"] for p, pr in r.procs.items()}
+        want = sorted(handles[(pid_of[p], h)] for (p, h) in r.holder_members() if (pid_of[p], h) in handles)
+        got = view.x if isinstance(view, Some) else None
+        if (got is None) != (not want) or (got is not None and got not in want) or nxt != opens or still_open != r.open_descriptors():
+            bad.append({"topology": name, "events": evs, "model": {"holder": got, "opened": nxt, "still_open": still_open},
+                        "impl": {"holder_handles": want, "opened": opens, "still_open": r.open_descriptors()}})
+    ctx.correspondence("proc-lock-layer", len(runs), bad)
 
 
 # ---------------------------------------------------------------------------------- S3 lock: cases
@@ -1006,6 +1243,8 @@ def run(ctx) -> None:
                 "(transient / lost / permanent / mixed with successes; 6 patterns quick, 11 thorough) until the lease lapses and a contender "
                 "takes over (after the ticks, or polling all along), with the holder's is_held() inserted at every point, once and twice; "
                 "random schedules of 3 clients with faults and random environments; "
+                "local lock across processes: event lists over {spawn, new, acq, rel, fork, kill, exit} on real processes -- 12 topologies "
+                "(how each process came into being) x every ordered pair of contending handles x {release, kill, exit} + random lists; "
                 "a case is distinct by its full event list; oracles judge every intermediate state")
     ctx.trusted_base += [
         "hypothesis flock_excl: the kernel grants LOCK_EX on an inode only if no other open file description holds it "
@@ -1018,6 +1257,9 @@ def run(ctx) -> None:
         "Model/PyTime.v: CPython's datetime subtraction (aware-aware by instants, naive-naive by fields, mixed raises), "
         ".timestamp() / mktime(timetuple()) reading naive fields as local time; fixed-offset zones; exercised by the "
         "correspondence under real TZ settings",
+        "translator/gen_filelock.py (FileLock's primitive skeleton and ownership discipline -> Gen/GenFileLock.v, fail-closed); "
+        "kernel flock semantics across processes as written in Model/ProcLock.v (grants / drops / shared descriptions after fork / "
+        "last-descriptor close), compared with the real kernel's answers in every process-family run; harness/lib/lockprocs.py",
         "harness: harness/lib/coop.py (scheduler), lockshims.py (patched primitives), fakes3_lock.py, lockruns.py, "
         "harness/props/c19.py; the heartbeat thread is replaced by explicit renew events, each running ONE iteration of the "
         "real _heartbeat_loop (its stop-event wait answers 'not stopped' once, then 'stopped'); the sleep between two ticks is a tick event",
@@ -1026,11 +1268,17 @@ def run(ctx) -> None:
         "scope: flock mode (fcntl available) and S3LockProvider (conditional writes); O_EXCL fallback and S3PollingLockProvider out of scope",
         "all S3 lock clients of one table use the same lease_seconds",
         "one FileLock / provider instance is used by one thread at a time (is_held() is judged between calls)",
+        "C19_proc_*: a fork copies idle handles (forks_quiescent); after a fork while held the copies are one holder, and a copied flag "
+        "whose acquisition was released through another copy is not judged",
         "C19_s3_mutex_partial: no release()'s DELETE lands after the releaser's own lease lapsed (otherwise: known finding)",
     ]
-    ctx.proofs(THEOREMS, gen_files=["GenLockConst.v", "GenLockAge.v"])
+    ctx.proofs(THEOREMS, gen_files=["GenLockConst.v", "GenLockAge.v", "GenFileLock.v"])
     ctx.allow_axioms([])
     check_flock(ctx)
+    try:
+        check_procs(ctx)
+    finally:
+        _close_pool()
     check_s3(ctx)
     stress_real(ctx)
     heartbeat_real(ctx)
@@ -1039,8 +1287,11 @@ def run(ctx) -> None:
 def replay(ctx, payload) -> int:
     case = payload.get("case") or {}
     kind = case.get("lock")
-    if kind in ("flock", "s3"):
-        r = rerun(kind, case["events"], ctx.scratch, case)
+    if kind in ("flock", "s3", "procs"):
+        try:
+            r = rerun(kind, case["events"], ctx.scratch, case)
+        finally:
+            _close_pool()
         want = (case.get("problem") or {}).get("oracle")
         hits = [p for p in r.problems if want is None or p["oracle"] == want]
         for ev, ob in zip(case["events"], r.obs):
